@@ -112,9 +112,10 @@ class Template:
     """positions: list of either a symbol name (fixed) or a set/list of symbol
     names / None (= whole alphabet) for a hole."""
 
-    def __init__(self, alpha: Alphabet, positions, name=""):
+    def __init__(self, alpha: Alphabet, positions, name="", var="k"):
         self.alpha = alpha
         self.name = name
+        self.var = var
         self.doms = []
         self.fixed = []
         for p in positions:
@@ -130,13 +131,13 @@ class Template:
                 self.doms.append(d)
                 self.fixed.append(False)
         self.n = len(self.doms)
-        self.kvars = [z3.Int(f"k{i}") for i in range(self.n)]
-        self.lines = [z3.Int(f"line{i}") for i in range(self.n)]
-        self.cols = [z3.Int(f"col{i}") for i in range(self.n)]
+        self.kvars = [z3.Int(f"{var}{i}") for i in range(self.n)]
+        self.lines = [z3.Int(f"{var}line{i}") for i in range(self.n)]
+        self.cols = [z3.Int(f"{var}col{i}") for i in range(self.n)]
 
     def declare(self, eng: E.Engine):
         for i in range(self.n):
-            eng.declare_fd(("k", i), self.kvars[i], self.doms[i])
+            eng.declare_fd((self.var, i), self.kvars[i], self.doms[i])
 
     def describe(self):
         out = []
@@ -158,7 +159,7 @@ class Template:
     def witness_from_dom(self, eng):
         toks = []
         for i in range(self.n):
-            j = min(eng.current_dom(("k", i)))
+            j = min(eng.current_dom((self.var, i)))
             toks.append(self.alpha.syms[j])
         return toks
 
@@ -256,12 +257,12 @@ class TokLexerBase:
         self.i = i + 1
         E.cur().at_input_position(i)
         alpha = tpl.alpha
-        key = ("k", i)
+        key = (tpl.var, i)
         var = tpl.kvars[i]
         eng = E.cur()
         if self.SYM_COORDS:
-            line = SymInt(tpl.lines[i], tag=f"line{i}")
-            col = SymInt(tpl.cols[i], tag=f"col{i}")
+            line = SymInt(tpl.lines[i], tag=f"{tpl.var}line{i}")
+            col = SymInt(tpl.cols[i], tag=f"{tpl.var}col{i}")
         else:
             line, col = 1, i + 1
         dom = tpl.doms[i]
@@ -269,8 +270,9 @@ class TokLexerBase:
             (j,) = dom
             ttype, tval = alpha.syms[j]
         else:
-            ttype = SymStr("T", i, key, var, alpha.types)
-            tval = SymStr("V", i, key, var, alpha.values)
+            ns = "" if tpl.var == "k" else tpl.var
+            ttype = SymStr("T" + ns, i, key, var, alpha.types)
+            tval = SymStr("V" + ns, i, key, var, alpha.values)
             j = None
         # identifiers classified by the real callback
         if alpha.ident and (j in alpha.ident if j is not None else (dom & alpha.ident and eng.decide_member(key, var, alpha.ident))):
